@@ -885,11 +885,18 @@ class Server:
         :param response_queue:
         :type response_queue: :py:class:`asyncio.Queue`
         """
-        while True:
-            args = await response_queue.get()
-            try:
-                await self.write_response(stream, *args)
-            finally:
+        try:
+            while True:
+                args = await response_queue.get()
+                try:
+                    await self.write_response(stream, *args)
+                finally:
+                    response_queue.task_done()
+        finally:
+            # nobody is going to write what is still queued (the peer is lost):
+            # do not keep `response_queue.join()` waiting for it
+            while not response_queue.empty():
+                response_queue.get_nowait()
                 response_queue.task_done()
 
     async def dispatcher(self, reader, writer):
@@ -918,6 +925,7 @@ class Server:
             write_timeout=self.socket_timeout,
         )
         response_queue = asyncio.Queue()
+        writer_task = asyncio.create_task(self.response_writer(stream, response_queue))
         connection = Connection(
             client_host=host,
             client_port=port,
@@ -932,7 +940,8 @@ class Server:
             path_io_factory=self.path_io_factory,
             path_timeout=self.path_timeout,
             extra_workers=set(),
-            response=lambda *args: response_queue.put_nowait(args),
+            # once the writer is gone, replies have nowhere to go
+            response=lambda *args: writer_task.done() or response_queue.put_nowait(args),
             acquired=False,
             restart_offset=0,
             _dispatcher=get_current_task(),
@@ -948,7 +957,7 @@ class Server:
         received = collections.deque()
         pending = {
             command,
-            asyncio.create_task(self.response_writer(stream, response_queue)),
+            writer_task,
             asyncio.create_task(self.parse_command(stream)),
         }
         self.connections[key] = connection
